@@ -92,6 +92,7 @@ def main(pid):
             st['phase'] = 'block_on'
             server, state, params = make_server(eng, 1, 0, top_level)
             st['state'] = state
+            w.server_state = state
             sref = new_cell(server)
             handle = eng.call('JobServer::handle', [sref], None, None)
             href = new_cell(handle)
